@@ -51,10 +51,11 @@ Inductive item2 :=
 | Vrb2 (ws name post : str) (dc : N) (text : str)       (* ws \name post dc text dc   (the [\verb] macro) *)
 | VEnv2 (ws bws name : str) (oarg : list item2) (text : str)
                                   (* ws \begin bws {name} [oarg] text \end{name}   (verbatim environments) *)
-(* the next three only in ARGUMENT position *)
+(* the next four only in ARGUMENT position *)
 | Brk2 (ws : str) (oc cc : N) (body : list item2) (tr : str)   (* ws [ body tr ]   (delimited argument) *)
 | Abs2                                                  (* an optional argument that is not written *)
-| Vba2 (ws : str) (od cd : N) (text : str).             (* ws od text cd   (verbatim argument) *)
+| Vba2 (ws : str) (od cd : N) (text : str)              (* ws od text cd   (verbatim argument) *)
+| Pre2 (ws text post : str) (a : item2).                (* ws % text post, then the argument [a] *)
 
 Record doc2 := { d_items2 : list item2; d_trail2 : str }.
 
@@ -80,6 +81,7 @@ Fixpoint unparse_item2 (i : item2) : str :=
   | Brk2 ws oc cc b tr => ws ++ oc :: flat_map unparse_item2 b ++ tr ++ [cc]
   | Abs2 => []
   | Vba2 ws od cd text => ws ++ od :: text ++ [cd]
+  | Pre2 ws text post a => ws ++ 37%N :: text ++ post ++ unparse_item2 a
   end.
 Definition unparse_items2 (l : list item2) : str := flat_map unparse_item2 l.
 Definition unparse2 (d : doc2) : str := unparse_items2 (d_items2 d) ++ d_trail2 d.
@@ -89,7 +91,7 @@ Definition item_ws2 (i : item2) : str :=
   match i with
   | Text2 ws _ | Grp2 ws _ _ | Mac2 ws _ _ _ | Math2 ws _ _ _ | Cmt2 ws _ _ | Par2 ws _
   | Env2 ws _ _ _ _ _ _ | Spc2 ws _ _ | Brk2 ws _ _ _ _ | Vrb2 ws _ _ _ _ | VEnv2 ws _ _ _ _
-  | Vba2 ws _ _ _ => ws
+  | Vba2 ws _ _ _ | Pre2 ws _ _ _ => ws
   | Abs2 => []
   end.
 
@@ -191,6 +193,36 @@ Fixpoint ok_item2 (cx : context) (ps : pstate) (ex : str) (i : item2) (fol : str
       | [] => true
       | j :: r => ok_item2 cx bps bex j (flat_map unparse_item2 r ++ fh) && oks bps bex r fh
       end in
+  (* a mandatory argument: comments (only where the slot allows whitespace), then a
+     braced group or one token *)
+  let oke := fix oke (sp : bool) (aps : pstate) (a : item2) (fa : str) {struct a} : bool :=
+      match a with
+      | Grp2 ws _ _ =>
+          (* a braced group; whitespace in front of it only if the kind allows it *)
+          (sp || is_nil ws) && ok_item2 cx aps [] a fa
+      | Text2 ws [c] =>
+          (* a single character *)
+          (sp || is_nil ws) && ws_ok ws && inert cx c
+      | Mac2 ws name post [] =>
+          (* a control sequence (its own arguments are not parsed) *)
+          ws_ok ws && ws_ok post && name_ok name post
+          && match get_macro_spec cx name with Some _ => true | None => false end
+          && mac_follow_ok2 name post fa
+      | Spc2 ws (c :: cr) [] =>
+          (* a specials sequence *)
+          ws_ok ws && plain_start c
+          && match test_specials (map fst (cx_specials cx)) ((c :: cr) ++ fa) None with
+             | Some sc => str_eqb sc (c :: cr)
+             | None => false
+             end
+      | Pre2 ws text post a' =>
+          (* a comment in front of the argument *)
+          sp && ws_ok ws && negb (mem_c 10 text) && ws_ok post
+          && match post with 10%N :: _ => true | _ => false end
+          && negb (otest is_space (hd_error (unparse_item2 a' ++ fa)))
+          && oke sp aps a' fa
+      | _ => false
+      end in
   let oka := fix oka (al : list item2) (specs : list argspec) (fh : str) {struct al} : bool :=
       match al, specs with
       | [], [] => true
@@ -198,24 +230,7 @@ Fixpoint ok_item2 (cx : context) (ps : pstate) (ex : str) (i : item2) (fol : str
           let aps := apply_adelta ps (a_delta spc) in
           let fa := flat_map unparse_item2 r ++ fh in
           match a_kind spc, a with
-          | AKExpr sp, Grp2 ws _ _ =>
-              (* a braced group; whitespace in front of it only if the kind allows it *)
-              (sp || is_nil ws) && ok_item2 cx aps [] a fa
-          | AKExpr sp, Text2 ws [c] =>
-              (* a single character *)
-              (sp || is_nil ws) && ws_ok ws && inert cx c
-          | AKExpr _, Mac2 ws name post [] =>
-              (* a control sequence (its own arguments are not parsed) *)
-              ws_ok ws && ws_ok post && name_ok name post
-              && match get_macro_spec cx name with Some _ => true | None => false end
-              && mac_follow_ok2 name post fa
-          | AKExpr _, Spc2 ws (c :: cr) [] =>
-              (* a specials sequence *)
-              ws_ok ws && plain_start c
-              && match test_specials (map fst (cx_specials cx)) ((c :: cr) ++ fa) None with
-                 | Some sc => str_eqb sc (c :: cr)
-                 | None => false
-                 end
+          | AKExpr sp, _ => oke sp aps a fa
           | AKGroup [oc'] [cc'] _ sp, Brk2 ws oc cc b tr =>
               (* a delimited argument with the delimiters of the signature; in its body
                  (not deeper) the two delimiter characters are not text *)
@@ -364,7 +379,7 @@ Fixpoint ok_item2 (cx : context) (ps : pstate) (ex : str) (i : item2) (fol : str
              end
          | None => false
          end
-  | Brk2 _ _ _ _ _ | Abs2 | Vba2 _ _ _ _ => false        (* only as arguments *)
+  | Brk2 _ _ _ _ _ | Abs2 | Vba2 _ _ _ _ | Pre2 _ _ _ _ => false        (* only as arguments *)
   end.
 
 (** (same shape as the local fixpoints of [ok_item2]) *)
@@ -375,22 +390,35 @@ Definition ok_items2 (cx : context) : pstate -> str -> list item2 -> str -> bool
     | j :: r => ok_item2 cx bps bex j (flat_map unparse_item2 r ++ fh) && oks bps bex r fh
     end.
 
+(** a mandatory argument [a] (comments, then a braced group or one token) parsed in state [aps] *)
+Definition ok_expr2 (cx : context) : bool -> pstate -> item2 -> str -> bool :=
+  fix oke (sp : bool) (aps : pstate) (a : item2) (fa : str) {struct a} : bool :=
+    match a with
+    | Grp2 ws _ _ => (sp || is_nil ws) && ok_item2 cx aps [] a fa
+    | Text2 ws [c] => (sp || is_nil ws) && ws_ok ws && inert cx c
+    | Mac2 ws name post [] =>
+        ws_ok ws && ws_ok post && name_ok name post
+        && match get_macro_spec cx name with Some _ => true | None => false end
+        && mac_follow_ok2 name post fa
+    | Spc2 ws (c :: cr) [] =>
+        ws_ok ws && plain_start c
+        && match test_specials (map fst (cx_specials cx)) ((c :: cr) ++ fa) None with
+           | Some sc => str_eqb sc (c :: cr)
+           | None => false
+           end
+    | Pre2 ws text post a' =>
+        sp && ws_ok ws && negb (mem_c 10 text) && ws_ok post
+        && match post with 10%N :: _ => true | _ => false end
+        && negb (otest is_space (hd_error (unparse_item2 a' ++ fa)))
+        && oke sp aps a' fa
+    | _ => false
+    end.
+
 (** one argument [a], written for the slot [spc] of a call in state [ps], followed by [fa] *)
 Definition ok_arg2 (cx : context) (ps : pstate) (spc : argspec) (a : item2) (fa : str) : bool :=
   let aps := apply_adelta ps (a_delta spc) in
   match a_kind spc, a with
-  | AKExpr sp, Grp2 ws _ _ => (sp || is_nil ws) && ok_item2 cx aps [] a fa
-  | AKExpr sp, Text2 ws [c] => (sp || is_nil ws) && ws_ok ws && inert cx c
-  | AKExpr _, Mac2 ws name post [] =>
-      ws_ok ws && ws_ok post && name_ok name post
-      && match get_macro_spec cx name with Some _ => true | None => false end
-      && mac_follow_ok2 name post fa
-  | AKExpr _, Spc2 ws (c :: cr) [] =>
-      ws_ok ws && plain_start c
-      && match test_specials (map fst (cx_specials cx)) ((c :: cr) ++ fa) None with
-         | Some sc => str_eqb sc (c :: cr)
-         | None => false
-         end
+  | AKExpr sp, _ => ok_expr2 cx sp aps a fa
   | AKGroup [oc'] [cc'] _ sp, Brk2 ws oc cc b tr =>
       N.eqb oc oc' && N.eqb cc cc' && delim_ok oc cc && (sp || is_nil ws) && ws_ok ws && ws_ok tr
       && ok_items2 cx aps [oc; cc] b (tr ++ cc :: fa)
@@ -443,6 +471,17 @@ Fixpoint node_of2 (cx : context) (ps : pstate) (p0 : nat) (i : item2) {struct i}
               | _ => push_node (pre_flush bps st (item_ws2 j) p) (node_of2 cx bps (p + length (item_ws2 j)) j)
               end) r
       end in
+  (* the node of a mandatory argument written at [p] (leading whitespace / comments included) *)
+  let ene := fix ene (aps : pstate) (p : nat) (a : item2) {struct a} : option node :=
+      let q := p + length (item_ws2 a) in
+      match a with
+      | Text2 _ cs => Some (mk_chars aps q (q + length cs) cs)
+      | Mac2 _ name post _ =>
+          Some (NMacro q (q + 1 + length name + length post) (ps_mode aps) name post (Some ([], [])))
+      | Spc2 _ chars _ => Some (NSpecials q (q + length chars) (ps_mode aps) chars (Some ([], [])))
+      | Pre2 _ text post a' => ene aps (q + 1 + length text + length post) a'
+      | _ => node_of2 cx aps q a
+      end in
   let goa := fix goa (p : nat) (al : list item2) (specs : list argspec) {struct al}
                : list (option node) * nat :=
       match al, specs with
@@ -454,11 +493,7 @@ Fixpoint node_of2 (cx : context) (ps : pstate) (p0 : nat) (i : item2) {struct i}
            | AKChars _ _ full, Text2 _ cs =>
                let cn := mk_chars aps q (q + length cs) cs in
                Some (if full then mk_nodelist None None [Some cn] else cn)
-           | AKExpr _, Text2 _ cs => Some (mk_chars aps q (q + length cs) cs)
-           | AKExpr _, Mac2 _ name post _ =>
-               Some (NMacro q (q + 1 + length name + length post) (ps_mode aps) name post (Some ([], [])))
-           | AKExpr _, Spc2 _ chars _ =>
-               Some (NSpecials q (q + length chars) (ps_mode aps) chars (Some ([], [])))
+           | AKExpr _, _ => ene aps p a
            | _, _ => node_of2 cx aps q a
            end :: fst rr, snd rr)
       | _, _ => ([], p)
@@ -466,6 +501,7 @@ Fixpoint node_of2 (cx : context) (ps : pstate) (p0 : nat) (i : item2) {struct i}
   match i with
   | Text2 _ _ => None
   | Abs2 => None
+  | Pre2 _ _ _ _ => None
   | Vba2 _ od cd text =>
       Some (NGroup p0 (p0 + 1 + length text + 1) (ps_mode ps) [od] [cd]
                    (Some (mk_nodelist None None [Some (mk_chars ps (S p0) (S p0 + length text) text)])))
@@ -566,6 +602,19 @@ Definition absorb2 (cx : context) : pstate -> nat -> collstate -> list item2 -> 
     | j :: r => go bps (p + ilen2 j) (absorb_item2 cx bps p st j) r
     end.
 
+(** the node of a mandatory argument written at [p] (leading whitespace / comments included) *)
+Definition expr_node2 (cx : context) : pstate -> nat -> item2 -> option node :=
+  fix ene (aps : pstate) (p : nat) (a : item2) {struct a} : option node :=
+    let q := p + length (item_ws2 a) in
+    match a with
+    | Text2 _ cs => Some (mk_chars aps q (q + length cs) cs)
+    | Mac2 _ name post _ =>
+        Some (NMacro q (q + 1 + length name + length post) (ps_mode aps) name post (Some ([], [])))
+    | Spc2 _ chars _ => Some (NSpecials q (q + length chars) (ps_mode aps) chars (Some ([], [])))
+    | Pre2 _ text post a' => ene aps (q + 1 + length text + length post) a'
+    | _ => node_of2 cx aps q a
+    end.
+
 (** the node of the argument [a] written at [p] (leading whitespace included) for the slot [spc] *)
 Definition arg_node2 (cx : context) (ps : pstate) (spc : argspec) (p : nat) (a : item2) : option node :=
   let aps := apply_adelta ps (a_delta spc) in
@@ -574,11 +623,7 @@ Definition arg_node2 (cx : context) (ps : pstate) (spc : argspec) (p : nat) (a :
   | AKChars _ _ full, Text2 _ cs =>
       let cn := mk_chars aps q (q + length cs) cs in
       Some (if full then mk_nodelist None None [Some cn] else cn)
-  | AKExpr _, Text2 _ cs => Some (mk_chars aps q (q + length cs) cs)
-  | AKExpr _, Mac2 _ name post _ =>
-      Some (NMacro q (q + 1 + length name + length post) (ps_mode aps) name post (Some ([], [])))
-  | AKExpr _, Spc2 _ chars _ =>
-      Some (NSpecials q (q + length chars) (ps_mode aps) chars (Some ([], [])))
+  | AKExpr _, _ => expr_node2 cx aps p a
   | _, _ => node_of2 cx aps q a
   end.
 
@@ -629,6 +674,7 @@ Fixpoint wsv2 (i i' : item2) {struct i} : Prop :=
   | Brk2 ws oc cc b tr, Brk2 ws' oc' cc' b' tr' => wse ws ws' /\ oc = oc' /\ cc = cc' /\ wse tr tr' /\ all2 b b'
   | Abs2, Abs2 => True
   | Vba2 ws od cd tx, Vba2 ws' od' cd' tx' => wse ws ws' /\ od = od' /\ cd = cd' /\ tx = tx'
+  | Pre2 ws tx post a, Pre2 ws' tx' post' a' => wse ws ws' /\ tx = tx' /\ wse post post' /\ wsv2 a a'
   | _, _ => False
   end.
 Definition wsv_items2 : list item2 -> list item2 -> Prop :=
